@@ -182,6 +182,8 @@ fn run_seq(args: &Args) -> Shard {
     let mut done = 0;
     while done < count && shard.started.elapsed() < budget && !rt::tainted() {
         let cfg = seq_cfg(focus, seed, index, clean_only);
+        #[cfg(feature = "typed")]
+        crate::typed::begin_case(seed, index);
         let out = seq::run_history(&cfg);
         let nontrivial = seq_nontrivial(focus, &out);
         shard.case(out.signature, nontrivial);
@@ -189,9 +191,13 @@ fn run_seq(args: &Args) -> Shard {
         for key in &out.critical { *shard.critical.entry(key.clone()).or_insert(0) += 1; }
         if nontrivial { shard.sample(out.sample.clone()); }
         for finding in out.findings { shard.add_finding(finding); }
+        #[cfg(feature = "typed")]
+        for finding in crate::typed::end_case("seq", "history", focus, seed, index) { shard.add_finding(finding); }
         index += stride;
         done += 1;
     }
+    #[cfg(feature = "typed")]
+    crate::typed::ledger_counts(&mut shard.counts);
     shard
 }
 
